@@ -126,6 +126,71 @@ theorem keyed_cache_stale {I K O : Type} [DecidableEq K] (key : I → K) (f : I 
     (hk : key i = key j) (hf : f i ≠ f j) : slotRun key f none [i, j] ≠ [i, j].map f :=
   slot_stale key f i j hk hf
 
+/-- **Approximate / lossy cache keys are unsound — for every such key.**  Take *any* hit test `same` on keys
+(`np.allclose` on the limits, equality after rounding, equality of hashes or of labels instead of the objects;
+plain `==` is the instance `fun a b => decide (a = b)`) and assume it identifies the keys of two inputs that
+`f` separates.  Then the 2-request history `[i, j]` is answered `[f i, f i]`: the second request returns the
+*first* input's value although `f j` is demanded.  (Second component: the same for an exact-equality key
+function that merges the two inputs — slot and dictionary.)  This is the defect class the fine-step strata of
+the keyed-cache families look for: for every key input they issue `[i, j]` with `j` one ulp, 1e-12 … 1e-3
+relative, 1e-8 absolute away from `i` (and value-equal / equal-hash / equal-label distinct objects) on data
+for which `f i ≠ f j`. -/
+theorem keyed_cache_approx_key_unsound {I K O : Type} (same : K → K → Bool) (key : I → K) (f : I → O)
+    (i j : I) (hk : same (key i) (key j) = true) (hf : f i ≠ f j) :
+    slotRunRel same key f none [i, j] = [f i, f i] ∧ slotRunRel same key f none [i, j] ≠ [i, j].map f := by
+  refine ⟨slotRel_hit same key f i j hk, ?_⟩
+  rw [slotRel_hit same key f i j hk]
+  intro h
+  simp only [List.map_cons, List.map_nil, List.cons.injEq, and_true, true_and] at h
+  exact hf h
+
+/-- … and for a key *function* compared exactly (rounded limits, `int(n_bin)`, `hash(settings)`, `att.label`):
+both cache shapes return the stale pair. -/
+theorem keyed_cache_lossy_key_unsound {I K O : Type} [DecidableEq K] (key : I → K) (f : I → O)
+    (i j : I) (hk : key i = key j) (hf : f i ≠ f j) :
+    slotRun key f none [i, j] = [f i, f i] ∧ dictRun key f [] [i, j] = [f i, f i] ∧
+      [f i, f i] ≠ [i, j].map f := by
+  refine ⟨slot_hit key f i j hk, dict_stale key f i j hk, ?_⟩
+  intro h
+  simp only [List.map_cons, List.map_nil, List.cons.injEq, and_true, true_and] at h
+  exact hf h
+
+/-- The exact characterisation, for an arbitrary hit test: a slot cache answers **every** request history with
+`f` of the current input **iff** the hit test never identifies the keys of two inputs with different answers.
+(⇐ by the invariant "the stored value is `f` of the input whose key is stored" — no transitivity or symmetry
+of `same` is needed; ⇒ by the 2-request history above.) -/
+theorem keyed_cache_sound_iff {I K O : Type} (same : K → K → Bool) (key : I → K) (f : I → O) :
+    (∀ is : List I, slotRunRel same key f none is = is.map f) ↔
+      (∀ i j, same (key i) (key j) = true → f i = f j) := by
+  constructor
+  · intro h i j hk
+    have h2 := h [i, j]
+    rw [slotRel_hit same key f i j hk] at h2
+    simp only [List.map_cons, List.map_nil, List.cons.injEq, and_true, true_and] at h2
+    exact h2
+  · intro href is
+    exact slotRunRel_sound same key f href is none (fun _ _ h => by cases h)
+
+/-- The plain slot is the instance `same := (· = ·)` of the general one. -/
+theorem slotRun_eq_slotRunRel {I K O : Type} [DecidableEq K] (key : I → K) (f : I → O) (is : List I)
+    (c : Option (K × O)) : slotRun key f c is = slotRunRel (fun a b => decide (a = b)) key f c is := by
+  induction is generalizing c with
+  | nil => rfl
+  | cons i is ih =>
+    cases c with
+    | none => simp only [slotRun, slotRunRel, slotStep, slotStepRel, ih]
+    | some ko =>
+      obtain ⟨k, o⟩ := ko
+      by_cases hk : k = key i <;> simp [slotRun, slotRunRel, slotStep, slotStepRel, hk, ih]
+
+/-- Witness in the shape of the seeded defect: limits in units of 1/8 day around the Julian date 2459000.5
+(= 19672004 eighths), hit test `|a - b| ≤ 1e-5·|b|` (the relative part of `np.allclose`), answer = the upper
+limit itself (the last bin edge).  Narrowing the range by 1/8 day is a hit; the old edge is returned. -/
+theorem allclose_key_stale :
+    let same : Int → Int → Bool := fun a b => decide (100000 * (a - b).natAbs ≤ b.natAbs)
+    slotRunRel same (fun x : Int => x) (fun x : Int => x) none [19672004, 19672003] = [19672004, 19672004] := by
+  decide
+
 /-! ## Non-vacuity and witnesses -/
 
 /-- A 4-element dataset; content 1 = `x > 2`, content 2 = `x > 3` (or the moved region), content 3 = all;
